@@ -509,6 +509,13 @@ func (e *Engine) valuesEqual(st *State, x, y Value) *smt.Term {
 		}
 		return c.Eq(x.L[0], y.L[0])
 	case *types.Pointer:
+		// nil is the object identity 0
+		if isNilConst(y) {
+			return c.Eq(x.L[0], e.k64(0))
+		}
+		if isNilConst(x) {
+			return c.Eq(y.L[0], e.k64(0))
+		}
 		// identity: same object and same position; place ids compared when both known
 		eq := c.And(c.Eq(x.L[0], y.L[0]), c.Eq(x.L[1], y.L[1]))
 		if x.L[2].IsConst() && y.L[2].IsConst() && x.L[2].Val != 0 && y.L[2].Val != 0 && x.L[2] != y.L[2] {
